@@ -5,6 +5,7 @@ COMMON_ASSUME = [
     "reference model of DESIGN.md section 2 (cross-checked against an operational twin in harness/model)",
     "SHA-256 / SHA-512/256 from the Go standard library; no hash collisions among generated leaves (distinct in their first 12 bytes)",
     "pgregory.net/rapid v1.3.0 generators; every random choice is a rapid draw seeded from VERIF_SEED",
+    "a quarter of the generated map forests run on caller-supplied stores (harness implementations of NodesInterface / CachedLeavesInterface with plain map semantics and descending ForEach order)",
 ]
 
 CHECKS = {
